@@ -798,6 +798,66 @@ func appRelayDriver(a *Args) {
 		hx.Emit("FaultCase", "sig", sig, "failed_writes", 1, "status", st, "hung", hung)
 		res.Case(sig, map[string]interface{}{"failing_part_of": which, "status": st, "hung": hung})
 	}
+	// a datastore outage for blob parts that lasts for a dozen large responses (every part write of every one of
+	// them fails), and then ends: each of those calls is answered with a failure, and once the store is back a
+	// large exchange works again - nothing that was given up on during the outage is still held
+	{
+		post := func(tag string) (st int, hung bool, same bool) {
+			e.setLastSeen(b1.ID, time.Now())
+			big := pattern("outage-"+tag, 2500000)
+			rid, ch := e.clientRequest(b1.EndUser, "GET", "/relay/outage-"+tag+"-"+randToken(rng, 6), nil, 8*time.Second)
+			e.storedUnder(rid, 10*time.Second)
+			done := make(chan int, 1)
+			go func() {
+				raw := append([]byte(fmt.Sprintf("HTTP/1.1 200 OK\r\nContent-Length: %d\r\nCache-Control: no-store\r\n\r\n", len(big))), big...)
+				s, _, _, _ := e.do(e.agPort, "POST", "/agent/response", agent(rid), raw, 20*time.Second)
+				done <- s
+			}()
+			select {
+			case st = <-done:
+			case <-time.After(10 * time.Second):
+				hung = true
+			}
+			if st == 200 {
+				select {
+				case cr := <-ch:
+					same = cr.status == 200 && bytes.Equal(cr.body, big)
+				case <-time.After(9 * time.Second):
+				}
+			}
+			return st, hung, same
+		}
+		failing := 12
+		if hx.Thorough() {
+			failing = 120
+		}
+		e.ae.PutHook = func(keys []string) (bool, time.Duration) {
+			for _, k := range keys {
+				if strings.HasPrefix(k, "blobParts|") {
+					return true, 0
+				}
+			}
+			return false, 0
+		}
+		worst, anyHung := 0, false
+		for i := 0; i < failing && !anyHung; i++ {
+			st, hung, _ := post(fmt.Sprintf("down%d", i))
+			if st == 200 {
+				worst = 200
+			} else if worst == 0 {
+				worst = st
+			}
+			anyHung = anyHung || hung
+		}
+		e.ae.PutHook = nil
+		hx.Emit("FaultCase", "sig", "fault:outage-of-part-writes", "failed_writes", 3*failing, "status", worst, "hung", anyHung)
+		st, hung, same := post("up")
+		if st == 200 && !same {
+			st = 599 // answered with a success, but the client did not get the posted bytes
+		}
+		hx.Emit("FaultCase", "sig", "fault:after-outage", "failed_writes", 0, "status", st, "hung", hung)
+		res.Case("fault:outage-then-recovery", map[string]interface{}{"responses_failed_during_outage": failing, "status_after": st, "hung_after": hung})
+	}
 	_ = sync.Mutex{}
 	_ = rand.Int
 }
